@@ -107,11 +107,13 @@ def witnessUndissectable : Bytes :=
 
 set_option maxRecDepth 20000 in
 /-- **C18 (undissectable header in a filtered sample — F19a)**: the filtered and the unfiltered decoder
-agree on the witness, and the unfiltered one reports the flow sample (without a `RawHeader`) and the
-counter sample; before the repair it was `err ip4Short` against a datagram with one counter sample -/
+agree on the witness, and the unfiltered one reports the flow sample (its `RawHeader` the record's four words —
+protocol 1, frame length 64, stripped 4, 14 octets — without a packet: F33) and the counter sample; before the F19a
+repair it was `err ip4Short` against a datagram with one counter sample -/
 theorem filter_undissectable :
     decode [1] witnessUndissectable = (decode [] witnessUndissectable).map (dropTypes [1]) ∧
-    (decode [] witnessUndissectable).map (fun d => (d.samples.map (·.recs.raw), d.counters.length)) = .ok ([none], 1) ∧
+    (decode [] witnessUndissectable).map (fun d => (d.samples.map (·.recs.raw), d.counters.length)) =
+      .ok ([some ⟨1, 64, 4, 14, none⟩], 1) ∧
     (decode [1] witnessUndissectable).map (fun d => (d.samples.length, d.counters.length)) = .ok (0, 1) := by
   decide
 
